@@ -303,6 +303,7 @@ def serial_facts():
         fd = _meth(B, 'from_dict')
         F['biv_from_dict_reads'] = _sub_reads(fd, 'copula_dict', 'Bivariate.from_dict')
         F['biv_from_dict_sets'] = _attr_sets(fd, 'instance')
+        F['biv_from_dict_via_base'] = "instance = Bivariate(copula_type=copula_dict['copula_type'])" in ast.unparse(fd)
         F['biv_save_json'] = 'json.dump(' in ast.unparse(_meth(B, 'save')) and 'json.load(' in ast.unparse(_meth(B, 'load')) \
             and 'cls.from_dict(' in ast.unparse(_meth(B, 'load'))
         for sub, f in (('Clayton', 'clayton'), ('Frank', 'frank'), ('Gumbel', 'gumbel'), ('Independence', 'independence')):
@@ -410,7 +411,7 @@ def gen_facts_coq(F):
               'edge_to_dict', 'edge_raw_attrs', 'edge_from_dict_reads', 'edge_set_attrs'):
         L.append(f'Definition gen_{k} : list string := {_cl(F[k])}.')
     for k in ('uni_to_dict_checks_fit', 'uni_wrapper_type_is_instance', 'uni_from_dict_sets_fitted', 'uni_from_dict_calls_set_params',
-              'uni_save_pickle', 'scipy_get_params_copies', 'scipy_set_params_shape', 'biv_to_dict_checks_fit', 'biv_save_json',
+              'uni_save_pickle', 'scipy_get_params_copies', 'scipy_set_params_shape', 'biv_to_dict_checks_fit', 'biv_save_json', 'biv_from_dict_via_base',
               'mv_save_pickle', 'gm_to_dict_checks_fit', 'vine_relinks'):
         L.append(f'Definition gen_{k} : bool := {_cb(F[k])}.')
     return '\n'.join(L) + '\n'
